@@ -95,6 +95,7 @@ class Evaluator:
         self.max_depth = max_depth
         self.events: List[Event] = []
         self.issues: List[str] = []
+        self.notes: List[str] = []
         self.loops: List[LoopCtx] = []
         self.depth = 0
         self.frames: List[Frame] = []
@@ -902,7 +903,8 @@ class Evaluator:
         if na.kind == 'list' and nb.kind == 'list':
             kind = 'list'
         if na.length is not None and nb.length is not None and not (na.length == nb.length):
-            self.issue(st, node, f"element-wise operation on arrays of different symbolic length: {na.length} vs {nb.length}")
+            self.notes.append(f"{getattr(node, 'lineno', '?')}: element-wise operation on arrays whose symbolic lengths are not provably equal: "
+                              f"{na.length} vs {nb.length}")
         try:
             if isinstance(op, ast.Add):
                 r = na.r + nb.r
@@ -1119,6 +1121,10 @@ class Evaluator:
                 return nb.at(i)
             if isinstance(idx, Term) and idx.head == 'slice':
                 lo, hi, step = idx.args
+                if isinstance(lo, Term) and lo.kind in ('scalar', 'int'):
+                    lo = term_as_num(lo, False)
+                if isinstance(hi, Term) and hi.kind in ('scalar', 'int'):
+                    hi = term_as_num(hi, False)
                 if isinstance(step, Const) or (isinstance(step, Num) and step.is_const() and step.const() == 1):
                     okl = isinstance(lo, Const) or (isinstance(lo, Num) and lo.length is None)
                     okh = isinstance(hi, Const) or (isinstance(hi, Num) and hi.length is None)
@@ -1261,6 +1267,11 @@ class Evaluator:
                 res = None
         if res is None:
             kind = LIB_RESULT_KIND.get(dotted, 'unknown')
+            if dotted in ('numpy.searchsorted',):
+                needle = kw.get('v', pos[1] if len(pos) > 1 else None)
+                kind = 'scalar' if isinstance(needle, Num) and needle.length is None else 'ndarray'
+            if dotted in ('numpy.argmax', 'numpy.argmin') and 'axis' not in kw and len(pos) < 2:
+                kind = 'scalar'
             uid = fresh_serial() if dotted in IMPURE_LIBS or dotted.startswith(IMPURE_PREFIXES) else None
             npos, nkw = normalise_lib_args(dotted, pos, kw) if star_kw is None else (pos, kw)
             res = Term('lib:' + dotted, npos, list(nkw.items()) + ([('**', star_kw)] if star_kw is not None else []),
